@@ -20,6 +20,19 @@ structure NumOK (dl : Bool) (h : List S) (s : S) (n : Node M) : Prop where
   notBoth : ¬ (n.phi = 0 ∧ n.delta = 0)
   live : G.over s = none ∨ (n.expanded = false ∧ (n.phi = 0 ∨ n.delta = 0))
 
+/-- `s` is reached from `root` by generated moves that the rules accept (the positions a search from
+`root` can ever hold) -/
+inductive Reach (root : S) : S → Prop
+  | refl : Reach root root
+  | step {s s' : S} : Reach root s → Succ G s s' → Reach root s'
+
+/-- fewer than 2³² generated moves in every position reachable from `root` (`SmallBranching` asks
+this of every value of the position type) -/
+def SmallFrom (root : S) : Prop := ∀ s, Reach G root s → (G.moves s).length < 2 ^ 32
+
+theorem SmallBranching.smallFrom {G : Game S M} (h : SmallBranching G) (root : S) : SmallFrom G root :=
+  fun s _ => h s
+
 /-- `c` is a child node of `n` (position `s`) and stands for position `s'` -/
 def ChildOf (s : S) (n c : Node M) (s' : S) : Prop :=
   c.move ∈ G.moves s ∧ G.apply s c.move = some s' ∧ c.isAnd = !n.isAnd
